@@ -186,6 +186,8 @@ bool FileHDF5::deleteSection(const std::string &name_or_id) {
         for(auto &child : section.sections()) {
             section.deleteSection(child.id());
         }
+        // a link that leads back to the section (or into its subtree) would keep the deleted section alive
+        section.link(nix::none);
         // if hasSection is true then section_group always exists
         deleted = metadata.removeAllLinks(section.name());
     }
